@@ -722,6 +722,16 @@ def run(ctx):
         nmod = c07model.tie(ctx, viol, cov)
     except Exception as e:
         viol.append(dict(what="model-level tie could not run: %r" % (e,), nofail=True, correspondence="Go functions vs Model/Robust*.v"))
+    try:
+        # the object-tree loader of Open on constructed group graphs vs Model/RobustLoad.v (theorems in Props/C07Load.v)
+        from props import c07load
+        nload, finding = c07load.tie(ctx, viol, cov)
+        nmod += nload
+        if finding and finding["id"] in kids:
+            known.append("%s re-confirmed: Open built %d group objects (%d bytes allocated) from a %d-byte file, loadCount %d" % (
+                finding["id"], finding["objects_built"], finding["bytes_allocated"] or 0, finding["file_bytes"], finding["load_count"]))
+    except Exception as e:
+        viol.append(dict(what="loader tie could not run: %r" % (e,), nofail=True, correspondence="hdf5.Open vs Model/RobustLoad.v"))
 
     worst = sorted([r for r in clean_res + res if r.get("hwm_kb")], key=lambda r: -r["hwm_kb"] * 1024.0 / mem_bound(r.get("size", 0)))[:3]
     slow = sorted([r for r in clean_res + res if r.get("ms") is not None], key=lambda r: -r["ms"])[:3]
